@@ -10,7 +10,10 @@ REGISTRY = {
     'C01': ['contracts.c01', ('contracts.gates', only('(gate)'))],
     'C02': ['contracts.c02'],
     'C03': ['contracts.lemmas', 'contracts.c03'],
+    'C04': ['contracts.c04'],
     'C05': ['contracts.c05', ('contracts.gates', only('compare_asm_block_asm_format'))],
+    'C06': ['contracts.c06'],
+    'C07': ['contracts.c07'],
     'C08': ['contracts.c08', ('contracts.gates', only('optimize_asm_block_asm_format(gate)', 'optimize_asm_contract(gate)',
                                                       'optimize_isolated_asm_block(gate)'))],
     'C09': ['contracts.c09', ('contracts.gates', only('optimize_asm_contract(gate)')), ('contracts.c14', only('rebuild_optimized_asm_block'))],
@@ -19,7 +22,7 @@ REGISTRY = {
     'C11': [('contracts.gates', only('optimize_asm_from_log', 'optimize_asm_block_asm_format(gate)', 'compare_asm_block_asm_format')),
             'contracts.c11'],
     'C12': ['contracts.c12'],
-    'C13': ['contracts.c13'],
+    'C13': ['contracts.c13', ('contracts.c12', only('frame('))],     # process independence includes history independence
     'C14': ['contracts.c14'],
     'C15': ['contracts.c15'],
     'C17': ['contracts.c17'],
